@@ -10,7 +10,7 @@ N = {"quick": 2000, "thorough": 80000}
 LEVEL_RULE = ("receivers and inserted events as C05 (sequences with nested sequences / simultaneities, simultaneities of "
               "containers with unequal voices; inserted leaf / sequence / simultaneity of length 0 .. 6 units); start drawn from child "
               "boundaries +-1 tick, leaf interiors, 0 and the duration; plus a malformed stream (about 14 %: negative start, start "
-              "beyond the duration, simultaneities with a leaf voice). non-trivial = the call succeeds and start lies strictly inside a "
+              "beyond the duration, simultaneities with a leaf voice) and a shared-reference stream (15 %: one leaf object sits at several positions of the receiver). non-trivial = the call succeeds and start lies strictly inside a "
               "leaf of a nested (depth >= 2) child, or strictly inside a leaf with content on both sides of it")
 ASSUMPTIONS = ASSUMPTIONS_M1
 TRUSTED = TRUSTED_M1
@@ -19,7 +19,14 @@ ERR_LEAF = "ImpossibleToSlideInError"
 
 
 def gen(seed, index):
-    return _c5.gen_case(PID, OP, seed, index)
+    case = _c5.gen_case(PID, OP, seed, index)
+    rng = rng_for(PID + "-share", seed, index)
+    if rng.random() < 0.15:
+        # shared reference stream: one leaf object sits at several positions of the receiver (built with [c] * n, or the
+        # same marker slid in twice).  slide_in divides a copy and re-joins, so the tree-as-value model still applies.
+        from props import C02 as _c2
+        _c2.share_leaves(rng, case[1])
+    return case
 
 
 def compare(case, mo, io):
